@@ -789,6 +789,23 @@ mod kani_c07 {
         }
     }
 
+    /// one step of parse_name (quick tier): the first item is yielded without panicking on every packet of <= 16 bytes - a label
+    /// that runs up to or past the end of the buffer gives Err - and lies inside the packet
+    #[cfg(feature = "proto-dns")]
+    #[kani::proof] #[kani::unwind(10)]
+    fn c07_dns_name_first_label() {
+        const L: usize = 16;
+        let buf: [u8; L] = kani::any();
+        let n: usize = kani::any();
+        kani::assume(n <= L); // tag: range
+        if let Ok(p) = DnsPacket::new_checked(&buf[..n]) {
+            let first = p.parse_name(p.payload()).next();
+            kani::cover!(matches!(first, Some(Err(_))) && n == 14 && buf[12] == 2, "label overrunning the buffer by one octet gives Err");
+            kani::cover!(matches!(first, Some(Ok(l)) if l.len() == 3), "a three-octet label is yielded");
+            if let Some(Ok(l)) = first { assert!(1 <= l.len() && l.len() <= 63 && l.len() < n, "C07.dns: the label is non-empty and lies inside the packet"); }
+        }
+    }
+
     #[cfg(feature = "proto-dns")]
     #[kani::proof] #[kani::unwind(10)]
     fn c07_dns_parse_name_14() { dns_walk_name::<14>(); }
